@@ -7,13 +7,13 @@ HERE = os.path.dirname(os.path.abspath(__file__))
 
 # id -> (technique, level text, level note, design ref)
 CLAIMED = {
- "C01": ("wire-layout abstract interpretation with a bit-provenance domain: E(D(x)) = x per bit, per discriminant configuration (boxes and the inner codecs of sample-group entries, tfxd/tfrf); committed don't-care ledger; CFG path rules on the decoders (sticky reader error consulted, trial-parse cleanup on failure), inferred counter/list lockstep pairs",
+ "C01": ("wire-layout abstract interpretation with a bit-provenance domain: E(D(x)) = x per bit, per discriminant configuration (boxes and the inner codecs of sample-group entries, tfxd/tfrf); committed don't-care ledger; CFG path rules on the decoders (sticky reader error consulted, trial-parse cleanup on failure), inferred counter/list lockstep pairs; reader/writer field order and width agreement (CFG reachability between SliceReader and SliceWriter call sites) also for irregular boxes and descriptors; append-alias lint",
          "Structural part only: for every registered box type outside a frozen irregular table, and every configuration of its discriminants (version, flag bits, compared counts, header length, presence predicates), each bit the encoder writes is the input bit the decoder kept for that position, or a constant where the decoder discards (and those runs are on the committed don't-care list); field order, widths, guards and loop structure agree; for mdat (the box that records its header form) the written header is as long as the decoded one. Not decided: irregular boxes (esds, meta, senc, sgpd, uuid, moof, hdlr, mime), numeric loop bounds, value arithmetic in opaque expressions, the decode-again fixed point.",
          "the interpreter models the bits.* stream APIs and analyses loops on one generic iteration; integer conversions inside opaque arithmetic are assumed value-preserving; children are opaque (each child type is its own obligation).", "DESIGN.md §3 E1, §4 C01"),
- "C02": ("wire-layout abstract interpretation: symbolic byte count of EncodeSW vs Size() as polynomials per configuration, header writers interpreted; wrapper-shape rule; member-set agreement of composites on a symbolic receiver; narrow-multiplication lint over the size functions; live-children rule; make-then-append lint; trial-parse cleanup path rule",
+ "C02": ("wire-layout abstract interpretation: symbolic byte count of EncodeSW vs Size() as polynomials per configuration, header writers interpreted; wrapper-shape rule; member-set agreement of composites on a symbolic receiver; narrow-multiplication lint over the size functions; live-children rule; make-then-append lint; trial-parse cleanup path rule; size-dependence rule (fields Size() reads vs fields EncodeSW reads); dependence clause on the modelled string writer",
          "Structural part only: per configuration the symbolic number of bytes EncodeSW writes equals Size() and the header carries Size() of the same box (all registered box types outside the irregular table, avc/hevc/av1 configuration records through their boxes); every Encode wrapper allocates exactly Size(); no product of two non-constant values in a size function is computed in 32 bits or fewer and only then widened; Size/Encode/EncodeSW of File, InitSegment, MediaSegment and Fragment visit the same members. Not decided: irregular boxes, numeric equality of loop bounds, idempotence of repeated encodes, API-built box values that violate decoder-established length facts.",
          "as C01; composites are analysed on a symbolic receiver whose members are opaque.", "DESIGN.md §3 E1/E7, §4 C02"),
- "C03": ("registry/delegation/wrapper shape rules over go/types + go/ssa; wire-layout sibling comparison",
+ "C03": ("registry/delegation/wrapper shape rules over go/types + go/ssa; wire-layout sibling comparison; size-dependence rule; stale-read-across-impure-observer ordering rule",
          "Structural necessary conditions only: the two decoder registries agree key-by-key (same pairing, same concrete box types), every delegating reader-path decoder delegates to its registered twin over exactly its own body, every Encode wrapper allocates Size() and writes what EncodeSW produced, separately written decoder/encoder pairs have the same wire layout, the file-level encoders visit the same members. Not decided: numeric equality of start positions, error texts.",
          "go/types + go/ssa of x/tools v0.29.0 are trusted; dynamic calls in decoders are not resolved (none today).", "DESIGN.md §4 C03"),
  "C04": ("SSA taint + dominance guard analysis (allocations, loops, constant and untrusted indices, divisions, cursor width) with checked data-structure invariants; nil-guard dominance on optional child fields and nil-able getter results; checked type assertions; must-pass-through rules on the header decoders (size vs header length) and on segment creation; call-graph reachability of explicit panics, who-may-call on storage-sharing reader methods; library-wide error discipline",
@@ -34,10 +34,10 @@ CLAIMED = {
  "C09": ("coherence-group rule, narrow-multiplication lint, linear index-vs-length comparison, dependence and independence clauses over go/ssa",
          "Narrow clauses only: a per-interval result slice is indexed below the length it was made with for every interval the entry tests allow; GetContainingChunks looks the stsc entry up per chunk; a present stss decides sync status also when empty; first/last chunk clipping are independent; every function in every package that stores the length-defining member of a sample table also stores its cached/parallel members; no product of two non-constant 32-bit values is widened only after the multiplication in the sample-table query code. The queries' index arithmetic (binary searches, run-length walks, chunk mapping) is NOT decided.",
          "coherence groups are a frozen table confirmed by reading.", "DESIGN.md §4 C09"),
- "C10": ("switch exhaustiveness (AST), coherence-group rule, narrow-multiplication lint, strict-upper-bound rule, inferred counter/list lockstep pairs (CFG path rule)",
+ "C10": ("switch exhaustiveness (AST), coherence-group rule, narrow-multiplication lint, strict-upper-bound rule (also through predicate helpers), inferred counter/list lockstep pairs (CFG path rule), data-dependence of the written chunk offsets",
          "Narrow clauses only: the crop switch handles all eight sample-table box types by calling a crop/update function; crop functions keep parallel/cached table members in step; no 32-bit product widened after the multiplication in the time/offset code the tool uses; the cropped stsz count comes from the cut point; no payload start is StartPos plus a constant. Not decided: the cut point, sync-sample selection, durations.",
          "as C09.", "DESIGN.md §4 C10"),
- "C11": ("error-discipline path analysis over go/ssa (error value must be used on every path from the call); boundary, fallback and independence clauses",
+ "C11": ("error-discipline path analysis over go/ssa (error value must be used on every path from the call); boundary, fallback and independence clauses; loop-carried buffer alias lint",
          "Narrow clauses only: the segmenter's last (inclusive) sample interval ends at the sample count itself; a default duration handed to TrunBox.Duration/CommonSampleDuration is resolved from tfhd and trex; sample bytes are located from the mdat box's own header length; first/last chunk clipping in the lazy copy are independent; in the segmenter, resegmenter and combine-segs examples and MediaSegment.Fragmentify, no error from a sample-moving call is discarded or overtaken by a decision on the co-returned value. Sample conservation as a whole (interval arithmetic, sync starts) is NOT decided.",
          "printing and Close calls are outside the rule.", "DESIGN.md §4 C11"),
  "C12": ("member-set agreement on a symbolic receiver, delimiter-order rule (SSA), data-dependence, coherence groups, ordering clauses",
@@ -46,10 +46,10 @@ CLAIMED = {
  "C15": ("id-domain typing of map keys over go/ssa; cross-wired field-copy rule; specification-table equality (H.264 Table E-1); sibling-list lint",
          "One clause only: SPS maps are keyed by SPS-domain ids and PPS maps by PPS-domain ids at every lookup and insertion (avc, hevc, mp4/crypto, cmd tools); a key read back from a field written in the same function carries the domain of the written value. Parsed values, cropping formula, slice-header length, codec strings are NOT decided.",
          "the id-domain table is frozen from the field declarations.", "DESIGN.md §4 C15"),
- "C17": ("wire-layout abstract interpretation at bit level for typed SEI messages; state-restore rule; ordering/dependence for the SEI writer; decoder purity (no store through, no return of, a pointer parameter)",
+ "C17": ("wire-layout abstract interpretation at bit level for typed SEI messages; state-restore rule; ordering/dependence for the SEI writer; decoder purity (no store through, no return of, a pointer parameter); must-pass-through rules on the EBSP reader reset and the SEI message loop",
          "Structural part only: for SEI 136/137/144, Payload() executed on the decoded abstract value reproduces every bit the decoder kept (plus alignment bits) under every flag/count configuration, and no value bit falls beyond Size(); MoreRbspData restores every reader field that Read modifies; WriteSEIMessages writes type, size, then the payload bytes, and the 0xFF-run writer continues while the remainder is >= 255; pass-through messages return the stored payload. Not decided: emulation prevention and trailing-bit detection arithmetic, AVC pic timing (external HRD parameters).",
          "as C01; counts of at most 6 bits are enumerated over their full range.", "DESIGN.md §4 C17"),
- "C18": ("inverse-table check on map literals; wire-layout abstract interpretation at bit level for AudioSpecificConfig; data-dependence for SetAACDescriptor; specification-table equality; truncate-then-reuse lint",
+ "C18": ("inverse-table check on map literals; wire-layout abstract interpretation at bit level for AudioSpecificConfig; data-dependence for SetAACDescriptor; specification-table equality; truncate-then-reuse lint; ADTS field-sequence agreement; escape-site count agreement for the explicit frequency",
          "Structural part only: FrequencyTable and ReverseFrequencies are mutual inverses (complete over the literals); AudioSpecificConfig.Encode executed on the decoded abstract value reproduces every bit read, for every object type / frequency index (incl. the 24-bit escape with non-table frequencies) / SBR configuration; the esds decoder-specific info depends on the encoded configuration; the SetAACDescriptor arm that sets parametric stereo also sets SBR and the extension frequency. ADTS is covered only by the table rule (its decoder is a sync-search loop). Numeric exhaustiveness over the domain is another technique family's job.",
          "as C01; a table frequency coded with the 24-bit escape is excluded as a non-canonical encoding (the property is stated for encode-then-decode).", "DESIGN.md §4 C18"),
  "C19": ("data-dependence / dominance obligations, parameter-forwarding and crosswise-argument rules over go/ssa, error discipline, table-reachability rule on guarded lookups into the AC-3 specification tables (linear comparison of the guard with the table length)",
